@@ -135,6 +135,12 @@ Definition spec_ok (c : dcase) : bool :=
                                            else true) sdones
              | None => false
              end) (dc_bundles c) &&
+  (* ... and of no run whose split completed only after the commit had listed the splits *)
+  forallb (fun b => match first_pos c (fst b) KCollect with
+                    | Some p => forallb (fun sg => existsb (fun x => Nat.ltb (fst x) p &&
+                                                      match split_of c (snd x) with Some sg' => pair_eqb sg sg' | None => false end) sdones) (snd b)
+                    | None => false
+                    end) (dc_bundles c) &&
   (* the recorded run of a split is the one whose final descriptor write succeeded *)
   forallb (fun x => match split_of c (snd x) with Some sg => existsb (pair_eqb sg) (dc_done c) | None => false end) sdones &&
   Nat.eqb (List.length (dc_done c)) (List.length sdones).
